@@ -177,6 +177,11 @@ pub trait Prop: Sync {
     fn health(&self, _ctx: &Ctx, _st: &Stats) -> Result<(), String> {
         Ok(())
     }
+    /// A check over the aggregated statistics of a whole run (e.g. the rate profile of a listed finding).
+    /// Err(..) is a VIOLATION without a single replayable case.
+    fn final_check(&self, _ctx: &Ctx, _st: &Stats) -> Result<(), Fail> {
+        Ok(())
+    }
     /// Replay the witness of a listed known finding: Ok(true) = still fails in the listed way,
     /// Ok(false) = does not fail any more, Err = fails differently (a violation).
     fn witness(&self, _ctx: &Ctx, _finding: &crate::findings::Finding) -> Result<bool, Fail> {
@@ -500,6 +505,11 @@ pub fn check(prop: &dyn Prop, ctx: &Ctx, only: Option<&str>) -> i32 {
         }
     }
     let mut out = run_all(prop, ctx, only);
+    if out.failure.is_none() && only.is_none() {
+        if let Err(fail) = prop.final_check(ctx, &out.stats) {
+            out.failure = Some(Failure { campaign: "aggregate".to_string(), shard: 0, tape: vec![], fail });
+        }
+    }
     if out.failure.is_none() {
         if let Some((id, fail)) = witness_failure {
             out.failure = Some(Failure {
@@ -563,6 +573,10 @@ pub fn replay(prop: &dyn Prop, ctx: &Ctx, path: &std::path::Path) -> i32 {
         }
     };
     let campaign = v["campaign"].as_str().unwrap_or("").to_string();
+    if campaign == "aggregate" {
+        println!("{} records a violation of an aggregate bound over a whole run ({}); run the check again to re-evaluate it", path.display(), v["message"].as_str().unwrap_or(""));
+        return 2;
+    }
     let tape: Vec<u32> = v["tape"]
         .as_array()
         .map(|a| a.iter().map(|x| x.as_u64().unwrap_or(0) as u32).collect())
